@@ -29,6 +29,21 @@ CLAIMED = {
        "decided.",
   technique="table comparison against independently computed definitions; GF(2)-linear and truth-table evaluation of macro-expanded expression trees",
   ref="4/C14"),
+ "C01": dict(
+  text="Path-shape and table clauses of losslessness, not the round trip itself: (ADV) in each of the ten match-finder "
+       "find/skip functions every path (per call / per skipped byte) advances the window exactly once via move_pos or "
+       "move_pending, move_pos only after the chain/tree slot of the current cyclic position and all hash tables of that "
+       "finder were updated with the current position, move_pending only on untouched paths, find and skip siblings update "
+       "the same hash slots, lzma_mf_find counts read_ahead once; (NORM) move_pos tests read_pos+offset==UINT32_MAX after "
+       "every increment and calls normalize(), which rebases hash[] and son[] with one rule over their full counts and moves "
+       "offset by the same subvalue; the window position fields of lzma_mf have a frozen writer set; (RESET) "
+       "lzma_lzma_encoder_reset and lzma_decoder_reset initialise every probability member (46 members incl. the length "
+       "coders) over all array dimensions, state, reps and range coder, with the same initial value and mask formulas on "
+       "both sides; (TAB) encoders[]/decoders[] list the same filter IDs and the property sizes written are the sizes "
+       "accepted. NOT decided: LZ parsing, prices, range coder arithmetic, window arithmetic, chunk limits, output-size "
+       "limiting, dictionary wrap, and therefore losslessness for all inputs/configurations.",
+  technique="path-sensitive event-count dataflow on the CFG (exactly-once / must-precede); post-dominator must-follow; field-coverage (E-COVER) with loop-bound vs array-dimension comparison; who-may-write table; table agreement",
+  ref="4/C01"),
  "C15": dict(
   text="Structural and finite-domain clauses of BCJ/delta invertibility and format stability: (SYM) in every *_code() the "
        "direction flag only selects src+pc vs src-pc (or negates pc) -- detection, gating (incl. the ARM64 ADRP range gate), "
